@@ -38,8 +38,9 @@ ASSUMPTIONS = [
     "an Enum instance of the declared class is one of its members; Enum member names are identifiers",
 ]
 EXHAUSTIVE = {"quick": False, "thorough": False}
-FINDING_CLASSES = {1: "union-vals-last", 2: "literal-eq", 3: "dict-key-unchecked", 4: "any-str-valueerror",
-                   5: "union-trial-mutates", 6: "combined-defects", 7: "group-key-scalar", 8: "optional-enum-order"}
+# classes 1, 2, 4, 5, 7, 8 were the defects repaired in /repo by ec37b24, d000fe2, f7876f0, ce28ec8, 895597a, c374a1a:
+# Spec/C02Guard.v no longer produces them (the pinned model contains the repairs), a recurrence is a class-0 failure
+FINDING_CLASSES = {3: "dict-key-unchecked"}
 
 ENUMS = {"Color": ["RED", "GREEN"], "Sw": ["on", "off", "A1"]}
 
@@ -830,7 +831,7 @@ META = {
     "level_text": "Theorems (coq/Properties/C02.v) for every type hint of the modelled grammar (str, int, float, bool, None, Any, "
                   "Literal, Enum, Union, List, Dict[str|int,.], Tuple[..], Tuple[.,...], Set; unbounded nesting), every input (text or "
                   "Python object) and every YAML loader. For the repaired model of ActionTypeHint._check_type + the re-check of "
-                  "validate (all seven fix patches in): C02_sound_repaired (accepted => exact declared shape: Python kind at every "
+                  "validate (the pinned tree plus the one unapplied dict-key repair): C02_sound_repaired (accepted => exact declared shape: Python kind at every "
                   "level, arity, strict Literal/Enum membership, key kinds), C02_never_rejects_right_shape_repaired, "
                   "C02_recheck_passes_repaired, C02_union_order_independent_repaired (all inputs), C02_union_iff_some_member_repaired, "
                   "C02_list/tuple/dict_iff_*_repaired (Python objects). For the model of the pinned tree on every input inside the "
